@@ -1040,6 +1040,12 @@ impl Circuit {
                 });
             }
             // second part of condition 4
+            if inputs.is_empty() {
+                // x ⊕ x ≡ ⊥
+                debug_assert_eq!(kind, GateKind::Xor);
+                gate_map[index] = Literal::FALSE ^ neg_out;
+                return Ok(());
+            }
             if let [l] = &inputs[..] {
                 gate_map[index] = *l ^ neg_out;
                 return Ok(());
